@@ -505,6 +505,36 @@ def Sim.phases {S A : Type} (m : Sim S A) : Nat → S → List Nat → List (Nat
     | none => (s1, acc.reverse)
     | some s2 => m.phases fuel s2 cs1 acc
 
+/-- forced schedule of the CAS loop (harness subject `oplimitf`): all callers at the top of the loop
+    load, then all of them attempt their CAS (order from the choice list), repeat; executions end
+    only when nobody is left to load. Each round notes (returned, inside, callers about to load). -/
+def olCasAll : Nat → OLS → List Nat → OLS × List Nat
+  | 0, s, cs => (s, cs)
+  | fuel + 1, s, cs =>
+    if s.loaded.isEmpty then (s, cs)
+    else
+      let (c, cs') := match cs with | [] => (0, []) | c :: r => (c, r)
+      match olStep s (.cas (c % s.loaded.length)) with
+      | none => (s, cs')
+      | some s' => olCasAll fuel s' cs'
+
+def olLoadAll : Nat → OLS → OLS
+  | 0, s => s
+  | fuel + 1, s => match olStep s .load with | none => s | some s' => olLoadAll fuel s'
+
+def olForced : Nat → OLS → List Nat → List (Nat × Nat × Nat) → OLS × List (Nat × Nat × Nat)
+  | 0, s, _, acc => (s, acc.reverse)
+  | fuel + 1, s, cs, acc =>
+    let acc := (s.retExec + s.retPanic + s.retSkip, s.inFn, s.idle) :: acc
+    if s.idle > 0 then
+      let s1 := olLoadAll s.idle s
+      let (s2, cs') := olCasAll (s1.loaded.length + 1) s1 cs
+      olForced fuel s2 cs' acc
+    else
+      match olStep s .fnEnd with
+      | none => (s, acc.reverse)
+      | some s' => olForced fuel s' cs acc
+
 def onceSim : Sim OnceS OnceA :=
   { step := onceStep, internal := fun _ => [.enter, .exit, .wake, .ret], gate := .fnEnd,
     returned := fun s => s.rets.length, inside := fun s => if s.runner = .inFn then 1 else 0 }
